@@ -34,6 +34,8 @@ type c17Srv struct {
 	mu      sync.Mutex
 	plat    string
 	strip   bool
+	padf    int          // other changed files, listed before the rule files
+	pad     int          // old review comments of another user, created before everything in store
 	store   []c17Comment // positioned review comments, creation order
 	nextID  int
 	general []string // comments without a position (GitLab notes / GitHub issue comments)
@@ -119,14 +121,26 @@ func (s *c17Srv) gitlab(w http.ResponseWriter, r *http.Request, p string, body [
 		write([]map[string]int{{"iid": 7}})
 	case p == "/api/v4/projects/1/merge_requests/7/diffs":
 		out := []map[string]string{}
+		for k := 0; k < s.padf; k++ {
+			f := fmt.Sprintf("docs/page%02d.md", k)
+			out = append(out, map[string]string{"diff": "@@ -1,1 +1,1 @@\n+text\n", "new_path": f, "old_path": f})
+		}
 		for _, f := range s.order {
 			out = append(out, map[string]string{"diff": s.files[f], "new_path": f, "old_path": f})
 		}
-		write(out)
+		lo, hi, next := c17Page(r, len(out), 20)
+		if next > 0 {
+			w.Header().Set("X-Next-Page", strconv.Itoa(next))
+		}
+		write(out[lo:hi])
 	case p == "/api/v4/projects/1/merge_requests/7/versions":
 		write([]map[string]any{{"id": 2, "head_commit_sha": "head", "base_commit_sha": "base", "start_commit_sha": "start"}})
 	case c17GlDisc.MatchString(p) && r.Method == http.MethodGet:
 		out := []disc{{ID: "1", Notes: []note{{ID: 1, System: true, Author: map[string]int{"id": c17User}, Body: "changed the description"}}}}
+		for k := 0; k < s.pad; k++ {
+			out = append(out, disc{ID: strconv.Itoa(100 + k), Notes: []note{{ID: 100 + k, Author: map[string]int{"id": c17Foreign},
+				Position: &pos{"base", "start", "head", s.order[len(s.order)-1], s.order[len(s.order)-1], "text", 1, 0}, Body: "an old remark of a reviewer"}}})
+		}
 		for _, c := range s.store {
 			a := c17User
 			if !c.Mine {
@@ -138,7 +152,15 @@ func (s *c17Srv) gitlab(w http.ResponseWriter, r *http.Request, p string, body [
 		for k, g := range s.general {
 			out = append(out, disc{ID: strconv.Itoa(5000 + k), Notes: []note{{ID: 5000 + k, Author: map[string]int{"id": c17User}, Body: g}}})
 		}
-		write(out)
+		// GitLab REST pagination: 20 items per page, X-Next-Page names the following page
+		lo, hi, next := c17Page(r, len(out), 20)
+		w.Header().Set("X-Page", strconv.Itoa(lo/20+1))
+		w.Header().Set("X-Per-Page", "20")
+		w.Header().Set("X-Total", strconv.Itoa(len(out)))
+		if next > 0 {
+			w.Header().Set("X-Next-Page", strconv.Itoa(next))
+		}
+		write(out[lo:hi])
 	case c17GlDisc.MatchString(p) && r.Method == http.MethodPost:
 		var req struct {
 			Body     string `json:"body"`
@@ -193,12 +215,25 @@ func (s *c17Srv) github(w http.ResponseWriter, r *http.Request, p string, body [
 	switch {
 	case p == pre+"pulls/7/files":
 		out := []map[string]string{}
+		for k := 0; k < s.padf; k++ {
+			out = append(out, map[string]string{"filename": fmt.Sprintf("docs/page%02d.md", k), "patch": "@@ -1,1 +1,1 @@\n+text\n"})
+		}
 		for _, f := range s.order {
 			out = append(out, map[string]string{"filename": f, "patch": s.files[f]})
 		}
-		write(out)
+		lo, hi, next := c17Page(r, len(out), 30)
+		if next > 0 {
+			q := r.URL.Query()
+			q.Set("page", strconv.Itoa(next))
+			w.Header().Set("Link", fmt.Sprintf("<http://%s%s?%s>; rel=\"next\"", r.Host, r.URL.Path, q.Encode()))
+		}
+		write(out[lo:hi])
 	case p == pre+"pulls/7/comments" && r.Method == http.MethodGet:
 		out := []map[string]any{}
+		for k := 0; k < s.pad; k++ {
+			out = append(out, map[string]any{"id": 100000 + k, "path": s.order[len(s.order)-1], "line": 1, "body": "an old remark of a reviewer", "side": "RIGHT",
+				"user": map[string]string{"login": "somebody"}})
+		}
 		for _, c := range s.store {
 			login := "pint-bot"
 			if !c.Mine {
@@ -206,7 +241,14 @@ func (s *c17Srv) github(w http.ResponseWriter, r *http.Request, p string, body [
 			}
 			out = append(out, map[string]any{"id": c.ID, "path": c.Path, "line": c.Line, "body": c.Text, "side": "RIGHT", "user": map[string]string{"login": login}})
 		}
-		write(out)
+		// GitHub REST pagination: 30 items per page by default, oldest first, Link header names the next page
+		lo, hi, next := c17Page(r, len(out), 30)
+		if next > 0 {
+			q := r.URL.Query()
+			q.Set("page", strconv.Itoa(next))
+			w.Header().Set("Link", fmt.Sprintf("<http://%s%s?%s>; rel=\"next\"", r.Host, r.URL.Path, q.Encode()))
+		}
+		write(out[lo:hi])
 	case p == pre+"pulls/7/comments" && r.Method == http.MethodPost:
 		var req struct {
 			Body string `json:"body"`
@@ -260,13 +302,34 @@ func (s *c17Srv) github(w http.ResponseWriter, r *http.Request, p string, body [
 	}
 }
 
+// page window [lo, hi) of n items for the request's page / per_page parameters; next = 0 when this is the last page
+func c17Page(r *http.Request, n, defPer int) (lo, hi, next int) {
+	per, _ := strconv.Atoi(r.URL.Query().Get("per_page"))
+	if per <= 0 {
+		per = defPer
+	}
+	page, _ := strconv.Atoi(r.URL.Query().Get("page"))
+	if page <= 0 {
+		page = 1
+	}
+	lo = (page - 1) * per
+	if lo > n {
+		lo = n
+	}
+	hi = lo + per
+	if hi >= n {
+		return lo, n, 0
+	}
+	return lo, hi, page + 1
+}
+
 func c17RunCaseHTTP(id int, cs c17Case, emit func(any)) error {
 	dir, err := os.MkdirTemp(shmDir(), "c17h-")
 	if err != nil {
 		return err
 	}
 	defer os.RemoveAll(dir)
-	srv := &c17Srv{plat: cs.Plat, strip: cs.Strip, files: map[string]string{}}
+	srv := &c17Srv{plat: cs.Plat, strip: cs.Strip, pad: cs.Pad, padf: cs.Padf, files: map[string]string{}}
 	ts := httptest.NewServer(srv)
 	defer ts.Close()
 	var commenter reporter.Commenter
@@ -304,7 +367,7 @@ func c17RunCaseHTTP(id int, cs c17Case, emit func(any)) error {
 		}
 		seeds = append(seeds, seedRec{in.comment(c), at})
 	}
-	emit(map[string]any{"ev": "Case", "id": id, "plat": cs.Plat, "max": cs.Max, "strip": cs.Strip, "store": seeds})
+	emit(map[string]any{"ev": "Case", "id": id, "plat": cs.Plat, "max": cs.Max, "strip": cs.Strip, "pad": cs.Pad, "padf": cs.Padf, "store": seeds})
 	for rn, run := range cs.Runs {
 		on := map[string]bool{}
 		for _, p := range run.Reports {
